@@ -311,6 +311,25 @@ func (c15) Run(c *fw.Case) {
 	if !ok || err != nil {
 		return
 	}
+	if c.Idx%4 == 1 {
+		// the same schema as a Go value whose raw defaults carry insignificant whitespace (json.RawMessage is caller-supplied
+		// JSON text; " {}" denotes the same value as "{}")
+		var s jsonschema.Schema
+		if json.Unmarshal([]byte(text), &s) == nil {
+			padDefaults(&s, r, 0)
+			var rs2 *jsonschema.Resolved
+			var rerr error
+			if !c.CallChecked("Resolve", map[string]any{"schema": json.RawMessage(text), "defaults": "whitespace-padded"}, func() { rs2, rerr = s.Resolve(nil) }) {
+				return
+			}
+			if rerr != nil {
+				c.Violation("Resolve fails when raw defaults carry surrounding whitespace: "+rerr.Error(), map[string]any{"schema": json.RawMessage(text)})
+				return
+			}
+			rs = rs2
+			c.Count("schemas_with_whitespace_padded_defaults", 1)
+		}
+	}
 	conflict := false
 	if req, ok := doc["required"].([]any); ok {
 		for _, q := range req {
@@ -450,5 +469,25 @@ func scribble(v any) {
 				x[i] = "SCRIBBLED"
 			}
 		}
+	}
+}
+
+// padDefaults surrounds every raw default in the tree with insignificant JSON whitespace.
+func padDefaults(s *jsonschema.Schema, r *rand.Rand, depth int) {
+	if s == nil || depth > 8 {
+		return
+	}
+	if s.Default != nil && r.IntN(3) > 0 {
+		s.Default = json.RawMessage(gen.Pick(r, []string{" ", "\n  ", "\t", "\r\n"}) + string(s.Default) + gen.Pick(r, []string{"", " ", "\n"}))
+	}
+	for _, c := range s.Properties {
+		padDefaults(c, r, depth+1)
+	}
+	for _, c := range s.AllOf {
+		padDefaults(c, r, depth+1)
+	}
+	padDefaults(s.Items, r, depth+1)
+	for _, c := range s.Defs {
+		padDefaults(c, r, depth+1)
 	}
 }
